@@ -13,6 +13,7 @@ import (
 	"context"
 	"fmt"
 	"math"
+	"reflect"
 	"strings"
 
 	"github.com/go-logr/logr"
@@ -49,11 +50,11 @@ const (
 
 // podCase is one enumerated input (also the replay artefact).
 type podCase struct {
-	Fraction *string `json:"gpu-fraction"`              // nil = annotation absent
-	Memory   *string `json:"gpu-memory"`                // nil = absent
-	Devices  *string `json:"gpu-fraction-num-devices"`  // nil = absent
-	Limit    string  `json:"nvidia_gpu_limit"`          // none | container | init
-	Named    string  `json:"fraction_container_name"`   // absent | regular | init | missing
+	Fraction *string `json:"gpu-fraction"`             // nil = annotation absent
+	Memory   *string `json:"gpu-memory"`               // nil = absent
+	Devices  *string `json:"gpu-fraction-num-devices"` // nil = absent
+	Limit    string  `json:"nvidia_gpu_limit"`         // none | container | init
+	Named    string  `json:"fraction_container_name"`  // absent | regular | init | missing
 	Sharing  bool    `json:"admission_gpu_sharing_enabled"`
 }
 
@@ -112,20 +113,20 @@ func (p podCase) build() *v1.Pod {
 // outcome is everything observed from the real components for one pod.
 type outcome struct {
 	// admission
-	MutErr, Mut2Err  string
-	Idempotent       bool
-	ValOrig, ValMut  string
-	AdmPanic         string
-	AdmAccept        bool
-	EnvContainers    []string // containers carrying the GPU-sharing env after Mutate ("c:<idx>" / "i:<idx>")
-	EnvCapName       string   // config-map name referenced by that env
-	VolumeOK         bool
+	MutErr, Mut2Err string
+	Idempotent      bool
+	ValOrig, ValMut string
+	AdmPanic        string
+	AdmAccept       bool
+	EnvContainers   []string // containers carrying the GPU-sharing env after Mutate ("c:<idx>" / "i:<idx>")
+	EnvCapName      string   // config-map name referenced by that env
+	VolumeOK        bool
 	// scheduler
-	SchedPanic                string
-	SType                     string
-	SPortion, SGPUs           float64
-	SCount, SMem              int64
-	SShared, SRequireGPU      bool
+	SchedPanic           string
+	SType                string
+	SPortion, SGPUs      float64
+	SCount, SMem         int64
+	SShared, SRequireGPU bool
 	// binder
 	BinderVal                                 string
 	BinderPanic                               string
@@ -219,7 +220,8 @@ func (c *components) evaluate(pc podCase) *outcome {
 		if o.MutErr == "" {
 			m2 := m1.DeepCopy()
 			o.Mut2Err = errStr(c.mutator[sh].Default(c.ctx, m2))
-			o.Idempotent = o.Mut2Err == "" && equality.Semantic.DeepEqual(m1, m2)
+			// fast path: m2 started as a deep copy of m1; fall back to semantic equality before calling it a difference
+			o.Idempotent = o.Mut2Err == "" && (reflect.DeepEqual(m1, m2) || equality.Semantic.DeepEqual(m1, m2))
 			_, err = c.validator[sh].ValidateCreate(c.ctx, m1)
 			o.ValMut = errStr(err)
 		}
@@ -280,7 +282,11 @@ func (c *components) evaluate(pc podCase) *outcome {
 			o.PgcReqMem = &q
 		}
 	})
-	seen.Annotations[recvTypeAnn] = "Fraction"
+	if pc.Fraction == nil && pc.Memory == nil {
+		o.PgcRecvErr = "n/a"
+		return o
+	}
+	seen.Annotations[recvTypeAnn] = "Fraction" // what the binder sets once a shared GPU was allocated
 	seen.Spec.NodeName = "n1"
 	guard(&o.PgcRecvPanic, func() {
 		rl, err := pgcresources.ExtractGPUSharingReceivedResources(c.ctx, seen, c.nodes)
@@ -432,6 +438,9 @@ func okOr(e, alt string) string {
 func pgcTag(p, e string) string {
 	if p != "" {
 		return "PANIC"
+	}
+	if e == "n/a" {
+		return e
 	}
 	return okOr(e, "err")
 }
